@@ -25,7 +25,7 @@ def run(tier):
     pr.assumptions += RUNTIME_ASSUMPTIONS + [
         'values are acyclic with string keys; the induction that lifts the CMP/LEX/DLEX step lemmas to all values is structural (measure: tree height, then remaining length) and is not itself discharged',
         'datetime normalisation (astimezone) is an uninterpreted monotone-agnostic map U2L: the order on normalised instants is the integer order',
-        'list.sort(key=cmp_to_key(value_compare)) returns an ordered permutation provided the comparison is a total preorder (assumed contract of list.sort; the proviso is the lemma layer); arraySort/dataSort/arrayIndexOf are not yet under contract',
+        'list.sort(key=cmp_to_key(value_compare)) returns an ordered permutation provided the comparison is a total preorder (assumed contract of list.sort; the proviso is the lemma layer)',
         'string order is z3 native lexicographic order on code points (CPython compares code points)',
     ]
     return pr
